@@ -27,5 +27,5 @@ Definition i_cons_b (o : order) (inc : N) (r : mres) : bool :=
       (vis u + hid u + m_consumed r =? vis o + hid o) &&
       (hid u + m_hidden_reduced r =? hid o) &&
       same_identity_b o u
-  | None => m_hidden_reduced r =? 0
+  | None => (m_hidden_reduced r =? 0) && (vis o <=? inc)
   end.
